@@ -84,9 +84,9 @@ def _gen_ops(r, scen, mc, nshared, n_ops):
         else:
             name = r.choice(["sign_det", "sign_k", "sign_ent", "verify",
                              "verify", "precompute", "to_string", "to_string",
-                             "pub_x", "vk_pickle", "verify_digest"])
+                             "pub_x", "vk_pickle", "verify_digest", "pt_mul"])
         op = dict(op=name, s=s, t=t)
-        if name in ("mul", "rmul"):
+        if name in ("mul", "rmul", "pt_mul"):
             op["k"] = libx.structured_scalar(r, n, hi_mult=3)
         if name in ("mul_add", "mul_add_other"):
             op["a"] = libx.structured_scalar(r, n, hi_mult=2) or 1
@@ -151,6 +151,21 @@ def generate(run_seed, tier):
                         ro.choice([1, 1, 2]) if not deep
                         else ro.choice([2, 3]))
                for _ in range(nthreads)]
+    if scen == "key" and ro.random() < 0.35:
+        # table building against use of the same key: one thread starts with
+        # precompute(), another with an operation on that key's point
+        k0 = ro.randrange(len(shared))
+        threads[0][0] = dict(op="precompute", s=k0, t=k0,
+                             lazy=ro.random() < 0.5)
+        nm = ro.choice(["pt_mul", "pt_mul", "verify", "pub_x", "to_string"])
+        op = dict(op=nm, s=k0, t=k0)
+        if nm == "pt_mul":
+            op["k"] = libx.structured_scalar(ro, mc.n, hi_mult=3)
+        if nm == "verify":
+            op["msg"] = "a5a5"
+        if nm == "to_string":
+            op["enc"] = "uncompressed"
+        threads[1][0] = op
     if scen == "keys2":
         # thread i mostly works with key i
         for ti, th in enumerate(threads):
@@ -359,6 +374,9 @@ def do_op(w, op):
     if name == "pub_x":
         pt = vk.pubkey.point
         return [int(pt.x()), int(pt.y())]
+    if name == "pt_mul":
+        # plain multiplication of the key's own point (what ECDH does)
+        return norm_pt(w, vk.pubkey.point * op["k"])
     if name == "vk_pickle":
         c = pickle.loads(pickle.dumps(vk))
         return bytes(c.to_string()).hex()
